@@ -235,6 +235,9 @@ func (e *wordEval) call(pkg *packages.Package, fd *ast.FuncDecl, recv any, args 
 			}
 			return ret
 		default:
+			if emptyDefer(st) {
+				continue
+			}
 			e.bad("statement %T in %s", st, fd.Name.Name)
 			return nil
 		}
